@@ -261,6 +261,16 @@ pub fn run(ctx: &Arc<Ctx>) {
     ctx.sample(serde_json::to_value(&cases[0]).unwrap());
     ctx.sample(serde_json::to_value(&cases[cases.len() / 2]).unwrap());
     run_cases(ctx, &cases, 8, eval);
+    // call sequences over related inputs on one thread: two keys x two IDs in every order
+    {
+        let mut items = Vec::new();
+        for (d, id) in [(&ds[1].1, Some("alice@example.com".to_string())), (&ds[4].1, Some("alice@example.com".to_string())), (&ds[1].1, None), (&ds[4].1, None)] {
+            items.push(Case::Sign { d: hexbig(d), id: id.clone(), msg_len: 33, msg_class: "seed".into(), k: hexbig(&ks[6].1), tag: "sequence".into() });
+        }
+        let seqs = permutations(&items);
+        ctx.cov("related_input_sequences", json!(seqs.len()));
+        run_sequences(ctx, &seqs, eval);
+    }
 
     // GM/T 0003.5 Annex A through the library, exact
     let sk = private_key(&hb(ANNEX_D));
